@@ -34,48 +34,9 @@
 //    len == 64 with an empty buffer would evaluate `bits << 64` (bit_writer.rs:44); no call site reaches it.
 use super::*;
 
-/// (S2) backwards: is `bytes[from..]` exactly the stuffed form of `n` (<= N) raw bytes? If so, return them.
-pub(crate) fn destuff<const N: usize>(bytes: &[u8], from: usize, n: usize) -> Option<[u8; N]> {
-    let mut raw = [0u8; N];
-    let mut i = from;
-    let mut j = 0;
-    while j < N {
-        if j < n {
-            if i >= bytes.len() {
-                return None;
-            }
-            let b = bytes[i];
-            i += 1;
-            raw[j] = b;
-            if b == 0xff {
-                if i >= bytes.len() || bytes[i] != 0x00 {
-                    return None;
-                }
-                i += 1;
-            }
-        }
-        j += 1;
-    }
-    if i != bytes.len() {
-        return None;
-    }
-    Some(raw)
-}
-
-/// (S1): bit k of the bit sequence carried by raw bytes
-pub(crate) fn bit_of_bytes(raw: &[u8], k: usize) -> u8 {
-    (raw[k / 8] >> (7 - k % 8)) & 1
-}
-
-/// (S3) code word: bit k (k < len) of a left-aligned word
-pub(crate) fn bit_of_code(word: u64, k: usize) -> u8 {
-    ((word >> (63 - k)) & 1) as u8
-}
-
-/// (S3) additional bits: bit k (k < len) of a `len`-bit value
-pub(crate) fn bit_of_value(v: u64, len: usize, k: usize) -> u8 {
-    ((v >> (len - 1 - k)) & 1) as u8
-}
+#[path = "@SPEC@/jpeg_bits.rs"]
+mod jpeg_bits;
+use jpeg_bits::*;
 
 pub(crate) fn wf(w: &BitWriter) -> bool {
     w.valid_buf_bits <= 63 && (w.buf << w.valid_buf_bits) == 0
@@ -86,7 +47,7 @@ pub(crate) fn wf(w: &BitWriter) -> bool {
 /// It replaces `BitWriter::emit_byte` (kani::stub) in the obligations on its callers; its equivalence with
 /// the real `emit_byte` is obligation `emit_byte_contract` below. It asserts that the capacity suffices, so
 /// a harness that reserved too little fails instead of proving something else.
-fn emit_byte_model(w: &mut BitWriter, b: u8) {
+pub(crate) fn emit_byte_model(w: &mut BitWriter, b: u8) {
     let l = w.output.len();
     let n = if b == 0xff { 2 } else { 1 };
     assert!(l + n <= w.output.capacity(), "harness reserves enough capacity");
@@ -106,7 +67,7 @@ fn emit_byte_model(w: &mut BitWriter, b: u8) {
 /// `Vec::extend_from_slice` (kani::stub; needs `#![feature(allocator_api)]`, added to the scratch copy by the
 /// runner via `crate_attrs`) in the obligations on flush_buf/finalize; equivalence with the real method for
 /// T = u8 is obligation `extend_model_contract`.
-fn extend_model<T: Clone, A: core::alloc::Allocator>(v: &mut Vec<T, A>, s: &[T]) {
+pub(crate) fn extend_model<T: Clone, A: core::alloc::Allocator>(v: &mut Vec<T, A>, s: &[T]) {
     assert!(!core::mem::needs_drop::<T>(), "model is a bitwise copy");
     let l = v.len();
     assert!(l + s.len() <= v.capacity(), "harness reserves enough capacity");
@@ -120,6 +81,13 @@ fn extend_model<T: Clone, A: core::alloc::Allocator>(v: &mut Vec<T, A>, s: &[T])
 // 4 x 63 bits = 32 raw bytes, each possibly stuffed (sequence)
 const RESERVE: usize = 18;
 const RESERVE_SEQ: usize = 64;
+
+/// `BitWriter::new()` with capacity already reserved (capacity is not observable): lets obligations in other
+/// modules (scan.rs), which cannot see BitWriter's fields, use emit_byte_model / extend_model.
+/// `new_reserved_contract` checks it against the postcondition of `new_contract`.
+pub(crate) fn new_reserved() -> BitWriter {
+    BitWriter { output: Vec::with_capacity(RESERVE_SEQ), buf: 0, valid_buf_bits: 0 }
+}
 
 /// any well-formed writer whose already emitted output is an arbitrary byte string of length <= 2
 /// (the operations only append to it; the contracts check that they do not touch it)
@@ -241,6 +209,14 @@ fn new_contract() {
     assert!(wf(&w), "[C17,C01] new() is well-formed");
     assert!(w.output.is_empty() && w.valid_buf_bits == 0, "[C17] new() holds no bytes and no bits");
     assert!(w.padding_bits() == 0, "[C17] an empty stream is byte aligned");
+}
+
+#[kani::proof]
+fn new_reserved_contract() {
+    let w = new_reserved();
+    assert!(wf(&w) && w.output.is_empty() && w.valid_buf_bits == 0 && w.buf == 0, "new_reserved() == new() up to capacity");
+    let n = BitWriter::new();
+    assert!(n.buf == w.buf && n.valid_buf_bits == w.valid_buf_bits && n.output == w.output);
 }
 
 // ------------------------------------------------------------------------------------------------
